@@ -42,23 +42,24 @@ def verify(name, src, prop=None):
         return 1
     log = {}
     try:
-        # where does the demo test go? next to the files the patch touches, unless the agent said so
+        # where do the demo tests go? by package clause
         touched = [l[6:].strip() for l in open(patch) if l.startswith("+++ b/")]
-        demo_dir = None
+        cands = {"statefulset": "pkg/controller/statefulset", "helper": "client/apis/apps/v1/helper", "v1": "client/apis/apps/v1", "k8s": "pkg/third_party/k8s"}
+        placed, cmds, names = [], [], []
         for t in tests:
             pkgline = [l for l in open(t) if l.startswith("package ")][0].split()[1]
-            cands = {"statefulset": "pkg/controller/statefulset", "helper": "client/apis/apps/v1/helper", "v1": "client/apis/apps/v1", "k8s": "pkg/third_party/k8s"}
-            demo_dir = cands.get(pkgline.replace("_test", ""), os.path.dirname(touched[0]))
-            shutil.copy(t, os.path.join(wt, demo_dir, os.path.basename(t)))
-        mod = "client" if demo_dir.startswith("client/") else "."
-        rel = "./" + (demo_dir[len("client/"):] if mod == "client" else demo_dir)
-        run_demo = f"cd {wt}/{mod} && go test -vet=off -count=1 {rel}"
-        names = []
-        for t in tests:
-            for l in open(t):
-                if l.startswith("func Test"):
-                    names.append(l.split("(")[0].split()[1])
-        run_demo += " -run '^(" + "|".join(names) + ")$'"
+            ddir = cands.get(pkgline.replace("_test", ""), os.path.dirname(touched[0]))
+            shutil.copy(t, os.path.join(wt, ddir, os.path.basename(t)))
+            placed.append(os.path.join(wt, ddir, os.path.basename(t)))
+            tn = [l.split("(")[0].split()[1] for l in open(t) if l.startswith("func Test")]
+            names += tn
+            mod = "client" if ddir.startswith("client/") else "."
+            rel = "./" + (ddir[len("client/"):] if mod == "client" else ddir)
+            cmds.append(f"(cd {wt}/{mod} && go test -vet=off -count=1 {rel} -run '^(" + "|".join(tn) + ")$')")
+            demo_dir = ddir
+        # every demonstration file must pass without the patch and fail with it
+        run_demo = " && ".join(cmds)
+        run_demo_any_fail = "; ".join(c + " ; echo RC=$?" for c in cmds)
         rc, out = sh(run_demo)
         log["demo_without_patch"] = {"cmd": run_demo, "rc": rc, "tail": out[-600:]}
         if rc != 0:
@@ -73,14 +74,15 @@ def verify(name, src, prop=None):
         if rc:
             print("does not build with the patch:", out[-1500:])
             return 1
-        rc, out = sh(run_demo)
-        log["demo_with_patch"] = {"cmd": run_demo, "rc": rc, "tail": out[-1200:]}
-        if rc == 0:
+        rc, out = sh(run_demo_any_fail)
+        fails = out.count("RC=1")
+        log["demo_with_patch"] = {"cmd": run_demo_any_fail, "failing_demo_packages": fails, "tail": out[-1200:]}
+        if fails == 0:
             print("demonstration passes even with the patch")
             return 1
         # the repository's own tests with the patch (demo removed)
-        for t in tests:
-            os.remove(os.path.join(wt, demo_dir, os.path.basename(t)))
+        for f in placed:
+            os.remove(f)
         cmd = f"cd {wt} && go test -vet=off -count=1 ./pkg/... && (cd client && go test -vet=off -count=1 ./...)"
         rc, out = sh(cmd)
         log["repo_tests_with_patch"] = {"cmd": cmd, "rc": rc, "tail": out[-600:]}
